@@ -451,7 +451,8 @@ Section Checker.
           end
       | Read d k =>
           match aloc_of de d with
-          | CDefault l => cond (memk (l, k) cl || negb (mems k (U l))) (Some cl) "Read of a key not rewritten in this call" (d ++ ":" ++ k)
+          | CDefault l => cond ((memk (l, k) cl && negb (timing k)) || negb (mems k (U l))) (Some cl)
+                            "Read of a key not rewritten in this call" (d ++ ":" ++ k)
           | CFresh => ok
           end
       | LogRead _ _ => ok
@@ -610,3 +611,49 @@ End Table.
 (* the named exemption (documented behaviour outside the two classes of the property):
    rand_custom has no seed parameter; its randomness is the caller-overridable default f=np.random.randn *)
 Definition exemptions : list (string * string) := [("tensors.rand_custom", "f")].
+
+(* ------------------------------------------------------------------------------------------------ *)
+(* 4. Vocabulary of the specification (used by the statements of Proofs/EffectsP.v, Properties/C10.v) *)
+(* ------------------------------------------------------------------------------------------------ *)
+
+Section Spec.
+  Variables S V : Type.
+  Variable U : dloc -> list string.
+
+  (* a default dictionary holds only keys of its universe (the keys the library itself stores) *)
+  Definition confined (w : state S V) : Prop := forall l k, mems k (U l) = false -> dd S V w l k = None.
+
+  (* generator object number k of the user is handed to the call: as a seed argument, or captured by a callback closure *)
+  Definition cfn_passes (c : cfn) (k : nat) : Prop :=
+    match c with CFClos _ cap => exists x, In (x, VGenExt k) cap | _ => False end.
+  Definition passed (fr : frame) (k : nat) : Prop :=
+    (exists x, In (x, VGenExt k) (senv fr)) \/ (exists p c, In (p, c) (fenv fr) /\ cfn_passes c k).
+
+  (* two worlds that agree on what the call is given: the observation prefix, the generators already created by
+     the call, and the state of the generator objects handed to it.  NOTHING is required of the global stream,
+     of OS entropy, of the clock, of the other generator objects, of the contents of the default dictionaries. *)
+  Definition same_inputs (fr : frame) (w1 w2 : state S V) : Prop :=
+    hist S V w1 = hist S V w2 /\ lg S V w1 = lg S V w2 /\ forall k, passed fr k -> ext S V w1 k = ext S V w2 k.
+
+  (* the global stream, OS entropy and every generator object outside P are exactly as before *)
+  Definition untouched_outside (P : nat -> Prop) (w w' : state S V) : Prop :=
+    gs S V w' = gs S V w /\ ent S V w' = ent S V w /\ forall k, ~ P k -> ext S V w' k = ext S V w k.
+
+  (* dictionary entries (timing excluded) on which the two worlds agree before still agree after *)
+  Definition no_new_difference (w1 w2 w1' w2' : state S V) : Prop :=
+    forall l k, timing k = false -> dd S V w1 l k = dd S V w2 l k -> dd S V w1' l k = dd S V w2' l k.
+End Spec.
+
+(* the concrete frame fr is an instance of the abstract entry context e *)
+Definition frame_matches (e : actx) (fr : frame) : Prop :=
+  map (fun xv => (fst xv, abs_val (snd xv))) (senv fr) = cse e /\ denv fr = cde e /\
+  map (fun pc => (fst pc, abs_fn (snd pc))) (fenv fr) = cfe e.
+
+(* the entry frames of an exported function g: every seed parameter bound to an integer / to a generator object of
+   the user; optional dictionaries left at their defaults; callbacks supplied by the user (or left at their defaults) *)
+Definition user_cbs (g : fn) : list (string * cfn) := map (fun pd => (fst pd, CFUser)) (fcallables g).
+Definition default_cbs (g : fn) : list (string * cfn) := map (fun pd => (fst pd, cfn_of_fdef (snd pd))) (fcallables g).
+Definition int_frame (g : fn) (z : string -> Z) (cbs : list (string * cfn)) : frame :=
+  mkframe (map (fun x => (x, VInt (z x))) (fseeds g)) (own_de g) cbs.
+Definition gen_frame (g : fn) (k : string -> nat) (cbs : list (string * cfn)) : frame :=
+  mkframe (map (fun x => (x, VGenExt (k x))) (fseeds g)) (own_de g) cbs.
